@@ -12,7 +12,7 @@ trusted; nixio's obligation - asserted here - is to pass that flag for every
 read-only open, to decide acceptance exactly as stated, and to touch nothing when
 it refuses.
 """
-from vf.ob import Ob, assume
+from vf.ob import Ob, assume, untraced
 from vf import models, fakeh5, nixfake
 
 PROPERTY = "C11"
@@ -169,6 +169,11 @@ def _ob_can(vx: int, vy: int, vz: int, vlen: int) -> bool:
 # 3. mutating calls on a read-only handle fail and leave the store unchanged
 # ---------------------------------------------------------------------------
 def _fixture():
+    with untraced():
+        _fixture_concrete()
+
+
+def _fixture_concrete():
     import nixio
     nixfake.begin()
     f = nixio.File(PATH, "w")
